@@ -268,6 +268,39 @@ func runC02(h *Harness) {
 			break
 		}
 	}
+	// several clients at once: different certificates, each with its own responder and its own answer (one of them slow),
+	// checked concurrently under seeded preemption. Every handshake follows the answer given for ITS certificate.
+	if len(h.R.Violations) == 0 && h.Idx >= enum && tp.Chance(1, 2) {
+		h.S.pPre = uint64(Pick(tp, 100, 300, 500)) * (1 << 32) / 1000
+		h.S.stallSteps, h.S.pDelayDen, h.S.delayFor = Pick(tp, 0, 30), Pick(tp, 0, 4), 2*time.Second
+		for round := 0; round < 3 && len(h.R.Violations) == 0; round++ {
+			k := 2 + tp.Int(3)
+			var calls []*HS
+			var want []string
+			for i := 0; i < k; i++ {
+				r := w.NewResponder(fmt.Sprintf("http://ocsp-conc%d-%d.sim/", round, i), w.A)
+				r.Status = Pick(tp, rRevoked, rGood, rRevoked)
+				r.Slow = Pick(tp, 0, time.Second, 3*time.Second)
+				r.Bulk = Pick(tp, 0, 0, 3000)
+				c := w.A.Issue(EEOpts{Serial: big.NewInt(int64(0x6000 + 16*round + i)), OCSP: []string{r.URL}, CDP: []string{}})
+				want = append(want, map[string]string{rRevoked: "revoked", rGood: "accept"}[r.Status])
+				calls = append(calls, h.StartHandshake(n, fmt.Sprintf("conc%d.%d", round, i), w.ChainFor(c, w.A)))
+			}
+			var ts []*Task
+			for _, x := range calls {
+				ts = append(ts, x.Task)
+			}
+			h.Wait(ts...)
+			h.R.NonTrivial = true
+			for i, x := range calls {
+				h.R.Checks++
+				if v := errStr(x.Err); v != want[i] {
+					h.Violation("C02.verdict", "concurrent:"+map[bool]string{true: "revoked-missed", false: "good-answer-denied"}[want[i] == "revoked"], "%d certificates were checked at the same time, each against its own responder; the one whose responder answered authentically '%s' got %s (strict=%v)", k, want[i], v, strict)
+					break
+				}
+			}
+		}
+	}
 	h.R.Sample = map[string]any{"urls": urls, "strict": strict, "cache": cache, "history": hist}
 	h.Cleanup(n)
 }
